@@ -55,13 +55,41 @@ Theorem C16_flooding_exact_once_run_for_enough_rounds n m0 total c0 c x :
         (div S total (@sum_vars S shape (scope c0) (flood_belief S shape scope nbrs psi n m0 c0) base0))
   = @brute S shape D ncl psi total (scope c) x.
 Proof. exact (flood_exact S shape D ncl scope nbrs psi nbrs_nodup nbrs_sym nbrs_lt psi_dep psi_wf shape_pos D_nodup scope_nodup scope_sub sch sch_valid sch_complete roots_ok n m0 total c0 c x). Qed.
+
+(* THE FORM THE CODE RUNS.  loopy_belief_propagation does not recompute all messages at once: each sweep first recomputes every
+   factor -> variable message (and subtracts its logsumexp: a rescaling), then every variable -> factor message from the new ones.  Model:
+   a sweep is ANY list of steps, each recomputing a selected set of messages from the current ones and rescaling them by a non-zero
+   factor that may depend on everything; the only requirement is that every message is selected at least once per sweep.  After as many
+   sweeps as the tree is high every message is the true one up to a non-zero scalar, and the beliefs, each normalised by its own mass
+   (factor_graph.py:160-168), are the brute-force marginals. *)
+Theorem C16_sweeps_reach_the_true_messages_up_to_scale Us n m0 :
+  nz_scalings S Us -> ncovers S nbrs Us ->
+  pexact_upto S shape scope nbrs psi sch n (Nat.iter n (nsweep S shape scope nbrs psi Us) m0).
+Proof. intros NZ C. exact (nsweeps_reach_true_messages S shape scope nbrs psi nbrs_sym sch sch_valid sch_complete Us n m0 NZ C). Qed.
+
+Theorem C16_loopy_propagation_exact_on_trees_once_run_for_enough_sweeps Us n m0 total c x :
+  nz_scalings S Us -> ncovers S nbrs Us -> (forall i j, In j (nbrs i) -> height (tr nbrs sch i j) <= n) -> c < ncl -> valid shape x ->
+  @sum_vars S shape (scope c) (belief_of_msgs S nbrs psi (Mtrue S shape scope nbrs psi sch) c) base0 <> zero S ->
+  mul S (belief_of_msgs S nbrs psi (Nat.iter n (nsweep S shape scope nbrs psi Us) m0) c x)
+        (div S total (@sum_vars S shape (scope c) (belief_of_msgs S nbrs psi (Nat.iter n (nsweep S shape scope nbrs psi Us) m0) c) base0))
+  = @brute S shape D ncl psi total (scope c) x.
+Proof. exact (nsweeps_exact S shape D ncl scope nbrs psi nbrs_nodup nbrs_sym nbrs_lt psi_dep psi_wf shape_pos D_nodup scope_nodup scope_sub sch sch_valid sch_complete roots_ok Us n m0 total c x). Qed.
+
+(* the code computes "all incoming messages minus the one going back" (a division): wherever the message going back is non-zero this is
+   the product over the other neighbours used above *)
+Theorem C16_division_form (g : nat -> S) j l : NoDup l -> In j l -> g j <> zero S ->
+  @sdiv S (prodl S (map g l)) (g j) = prodl S (map g (others j l)).
+Proof. exact (prodl_split_div S g j l). Qed.
 End C16_flooding.
 Print Assumptions C16_flooding_reaches_the_true_messages.
 Print Assumptions C16_flooding_exact_once_run_for_enough_rounds.
+Print Assumptions C16_sweeps_reach_the_true_messages_up_to_scale.
+Print Assumptions C16_loopy_propagation_exact_on_trees_once_run_for_enough_sweeps.
+Print Assumptions C16_division_form.
 
-(* PARTIAL (observed per run against the brute-force marginals, not proved): that the code's loopy propagation - the same recursion in
-   log space, with the messages normalised, computed by division (sum of all incoming minus the one going back) and in two half-sweeps
-   (factor -> variable, then variable -> factor) - and generalized BP on clique sets with the running-intersection property (potentials
-   on the maximal cliques) reach these marginals after enough sweeps; the float models of both sweeps are compared with the code.
+(* PARTIAL (observed per run against the brute-force marginals, not proved): (1) that loopy_belief_propagation in log-space floats IS such a sweep
+   list on the bipartite factor/variable tree (factor -> variable step rescaled by 1/sum, variable -> factor step unscaled, division form with
+   non-zero messages - which holds for finite potentials); the float model of the sweep is compared with the code on every run;
+   (2) generalized BP on clique sets with the running-intersection property (potentials on the maximal cliques).
    Known finding: generalized BP ignores the potentials of descendant regions in beliefs and message numerators, so it is inexact
    as soon as a nested (non-maximal) region carries a potential. *)
